@@ -508,6 +508,45 @@ theorem small_ring_counterexample :
   have := h .fft64 4 ⟨1, 1, 3, 17, 1, 1⟩ ⟨4096, tbGgxEncryptSk .fft64 4 3⟩ (by decide)
   revert this; decide
 
+/-! ## poulpy-bin-fhe and poulpy-ckks -/
+
+/-- `cmux` (same tree for `cmux_assign`): admissibility = the assertions of the inner external product
+(`res.base2k == ggsw.base2k`) and `dsize ≥ 1` -/
+theorem cmux_ok (res : G) (k : K) (hn : n % 8 = 0) (hres : res.rank = k.rankOut) (hb : res.b2k = k.b2k)
+    (hb0 : 0 < k.b2k) (hd : 1 ≤ k.dsize) (w : Arena) (h : tbCmux be n res k ≤ w.available) :
+    (run (treeCmux be n res k) w).isOk = true :=
+  ok_of_facts (cmux_facts be n res k hn hres hb hb0 hd) w h
+
+example : (run (treeCmux .fft64 16 ⟨1, 3, 17⟩ ⟨1, 1, 3, 17, 3, 1⟩) ⟨4096, tbCmux .fft64 16 ⟨1, 3, 17⟩ ⟨1, 1, 3, 17, 3, 1⟩⟩).isOk = true := by
+  decide
+
+/-- `execute_bdd_circuit_multi_thread`: a window of `threads × execute_bdd_circuit_tmp_bytes` serves every
+thread count: the per-thread size is a multiple of 64 (so `split_mut` loses nothing to re-alignment) and
+each window holds `2·state` GLWEs plus a `cmux`. -/
+theorem execute_bdd_ok (threads state : Nat) (res : G) (k : K) (hn : n % 8 = 0) (hres : res.rank = k.rankOut)
+    (hb : res.b2k = k.b2k) (hb0 : 0 < k.b2k) (hd : 1 ≤ k.dsize) (w : Arena)
+    (h : threads * tbExecBdd be n state res k ≤ w.available) :
+    (run (treeExecBdd be n threads state res k) w).isOk = true :=
+  execBdd_ok be n threads state res k hn hres hb hb0 hd w h
+
+example : (run (treeExecBdd .ntt120 32 3 3 ⟨1, 2, 13⟩ ⟨1, 1, 3, 13, 2, 1⟩)
+    ⟨4104, 56 + 3 * tbExecBdd .ntt120 32 3 ⟨1, 2, 13⟩ ⟨1, 1, 3, 13, 2, 1⟩⟩).isOk = true := by decide
+
+/-- CKKS `add` / `sub` / `add_pt_const` / `sub_pt_const`: any sequence of shifts and normalisations; every `n` -/
+theorem ckks_shift_norm_ok (w : Arena) (h : tbCkksShiftNorm n ≤ w.available) : (run (treeCkksShiftNorm n) w).isOk = true := by
+  apply run_ok _ (by simp [treeCkksShiftNorm, altList, treeGlweRsh, treeGlweLsh, treeGlweNormalize, treeRsh, treeLsh, treeNormalize, fits]) w
+  simp only [treeCkksShiftNorm, altList, treeGlweRsh, treeGlweLsh, treeGlweNormalize, treeRsh, treeLsh, treeNormalize, leaf, req,
+    tbCkksShiftNorm, tbGlweShift, tbGlweNormalize, rshTmp, lshTmp, normTmp] at *
+  simp only [Nat.add_zero, if_true]; omega
+
+example : (run (treeCkksShiftNorm 4) ⟨4100, 60 + tbCkksShiftNorm 4⟩).isOk = true := by decide
+
+/-- CKKS `neg` / `mul_pow2` / `div_pow2` / `rescale` / `align`: a left shift; every `n` -/
+theorem ckks_shift_ok (w : Arena) (h : tbCkksShift n ≤ w.available) : (run (treeCkksShift n) w).isOk = true :=
+  (glwe_shift_ok n w h).2
+
+example : (run (treeCkksShift 16) ⟨4096, tbCkksShift 16⟩).isOk = true := by decide
+
 end core
 
 end C12
